@@ -3,6 +3,7 @@ package scen
 import (
 	"fmt"
 	"sort"
+	"sync"
 
 	"github.com/Trendyol/go-dcp/wrapper"
 
@@ -18,6 +19,9 @@ type swOp struct {
 	V    uint64 `json:"v,omitempty"`
 	Mode int    `json:"mode,omitempty"`
 	Stop int    `json:"stop,omitempty"` // range: the callback says "stop" at this call (0: never)
+	// pstore: stores of pairwise distinct keys issued by goroutines released together (one per vBucket, as
+	// acknowledgements arrive); the model applies them in list order, which C05_container_stores_commute justifies
+	Batch [][2]uint64 `json:"batch,omitempty"`
 }
 
 type swOut struct {
@@ -79,6 +83,23 @@ func swRun(size uint64, ops []swOp) (outs []swOut, objection string, at int) {
 			m.Store(o.K, o.V)
 			shadow[o.K] = o.V
 			outs = append(outs, swOut{Kind: "unit"})
+		case "pstore":
+			var wg sync.WaitGroup
+			start := make(chan struct{})
+			for _, kv := range o.Batch {
+				wg.Add(1)
+				go func(k uint16, v uint64) {
+					defer wg.Done()
+					<-start
+					m.Store(k, v)
+				}(uint16(kv[0]), kv[1])
+			}
+			close(start)
+			wg.Wait()
+			for _, kv := range o.Batch {
+				shadow[uint16(kv[0])] = kv[1]
+				outs = append(outs, swOut{Kind: "unit"})
+			}
 		case "delete":
 			m.Delete(o.K)
 			delete(shadow, o.K)
@@ -272,7 +293,27 @@ func runSwissMap(c *Ctx) {
 			case r < 19:
 				ops = append(ops, swOp{Kind: "tomap"})
 			default:
-				ops = append(ops, swOp{Kind: "json"})
+				if c.Rng.Intn(2) == 0 {
+					ops = append(ops, swOp{Kind: "json"})
+					break
+				}
+				nb := 2 + c.Rng.Intn(7)
+				var batch [][2]uint64
+				inBatch := map[uint16]bool{}
+				for len(batch) < nb {
+					k := key()
+					if inBatch[k] {
+						k = uint16(c.Rng.Intn(65536))
+						if inBatch[k] {
+							continue
+						}
+					}
+					inBatch[k] = true
+					used = append(used, k)
+					batch = append(batch, [2]uint64{uint64(k), val()})
+				}
+				ops = append(ops, swOp{Kind: "pstore", Batch: batch})
+				c.Count("container-concurrent-batch")
 			}
 		}
 		ops = append(ops, swOp{Kind: "range"}, swOp{Kind: "tomap"})
@@ -284,9 +325,15 @@ func runSwissMap(c *Ctx) {
 			c.Violate("container", "wrapper.ConcurrentSwissMap, op "+fmt.Sprint(at)+" of the sequence: "+objection,
 				map[string]interface{}{"how": "the ops on wrapper.CreateConcurrentSwissMap[uint16,uint64](size)", "size": size, "ops": ops[:at+1]})
 		}
-		ot := make([]gal.Term, len(ops))
-		for j, o := range ops {
-			ot[j] = swOpTerm(o)
+		var ot []gal.Term
+		for _, o := range ops {
+			if o.Kind == "pstore" {
+				for _, kv := range o.Batch {
+					ot = append(ot, gal.App("SStore", gal.N(kv[0]), gal.N(kv[1])))
+				}
+				continue
+			}
+			ot = append(ot, swOpTerm(o))
 		}
 		rt := make([]gal.Term, len(outs))
 		for j, o := range outs {
